@@ -72,7 +72,7 @@ impl Property for C03 {
     fn runs(&self, tier: Tier) -> usize {
         match tier {
             Tier::Quick => 12_000,
-            Tier::Thorough => 120_000,
+            Tier::Thorough => 250_000,
         }
     }
 
